@@ -63,6 +63,16 @@ fn ind_s<Q: Pool>(pool: &[Q::Encoding], i: &Individual<Q>) -> String {
 }
 fn so(v: f64) -> SingleObjective { SingleObjective::try_from(v).unwrap() }
 
+fn mk_src<Q: Pool>(pool: &[Q::Encoding], a: &[Sx]) -> Vec<Individual<Q>> {
+    a.iter()
+        .map(|x| {
+            let it = x.items().unwrap();
+            let sol = pool[it[0].nat().unwrap() as usize].clone();
+            if it.len() > 1 { Individual::new(sol, so(it[1].float().unwrap())) } else { Individual::new_unevaluated(sol) }
+        })
+        .collect()
+}
+
 fn api_ops<Q: Pool>(problem: Q, npool: usize, ops: &[Sx]) -> String {
     let pool = make_pool(&problem, npool, 7);
     let ftab = tagged("f", pool.iter().map(|s| fx(problem.raw_f(s))));
@@ -86,6 +96,16 @@ fn api_ops<Q: Pool>(problem: Q, npool: usize, ops: &[Sx]) -> String {
             }
             "intosol" if in_range(0, &v) => { let i = v.remove(n(0)); format!("(n {})", sid::<Q>(&pool, &i.into_solution())) }
             "clone" if in_range(0, &v) => { let c = v[n(0)].clone(); v.push(c); "u".into() }
+            "clonefrom" if in_range(0, &v) && in_range(1, &v) => {
+                let src = v[n(1)].clone();
+                v[n(0)].clone_from(&src);
+                "u".into()
+            }
+            "vclonefrom" => { let src = mk_src::<Q>(&pool, a); v.clone_from(&src); "u".into() }
+            "sclonefrom" => {
+                let src = mk_src::<Q>(&pool, a);
+                catch(|| v.clone_from_slice(&src)).map(|_| "u".to_string()).unwrap_or("panic".into())
+            }
             "iseval" if in_range(0, &v) => b(v[n(0)].is_evaluated()),
             "getobj" if in_range(0, &v) => format!("(o {})", v[n(0)].get_objective().map(|o| fx(o.value())).unwrap_or("none".into())),
             "obj" if in_range(0, &v) => catch(|| format!("(o {})", fx(v[n(0)].objective().value()))).unwrap_or("panic".into()),
@@ -119,7 +139,7 @@ fn api_ops<Q: Pool>(problem: Q, npool: usize, ops: &[Sx]) -> String {
                 Some(i) => format!("(i {})", ind_s::<Q>(&pool, i)),
             })
             .unwrap_or("panic".into()),
-            "eval" | "evalw" | "setobj" | "sol" | "solmut" | "intosol" | "clone" | "iseval" | "getobj" | "obj" | "eq" => "skip".into(),
+            "eval" | "evalw" | "setobj" | "sol" | "solmut" | "intosol" | "clone" | "clonefrom" | "iseval" | "getobj" | "obj" | "eq" => "skip".into(),
             other => panic!("unknown op {other}"),
         };
         steps.push(list([ret, list(v.iter().map(|i| ind_s::<Q>(&pool, i)))]));
@@ -146,6 +166,224 @@ fn pool_f(kind: &str, inst: u32, npool: usize) -> Vec<f64> {
         "real" => go(sphere_instance(inst), npool),
         "binary" => go(onemax_instance(inst), npool),
         _ => go(tsp_instance(inst), npool),
+    }
+}
+
+// ------------------------------------------------------------------ component level
+use mahf::components::{boundary, mutation, recombination, replacement, swarm};
+use mahf::components::evaluation::BestIndividualUpdate;
+use mahf::components::swarm::pso::ParticleVelocities;
+use mahf::state::common::Populations;
+use mahf::{Component, Random};
+
+fn status<Q: HProblem>(i: &Individual<Q>, problem: &Q) -> &'static str {
+    match i.get_objective() {
+        None => "f",
+        Some(o) => {
+            let w = problem.raw_f(i.solution());
+            let w = if w.is_nan() { f64::INFINITY } else { w };
+            if o.value().to_bits() == w.to_bits() { "t" } else { "s" }
+        }
+    }
+}
+fn evaluated<Q: HProblem>(problem: &Q, sol: Q::Encoding) -> Individual<Q> {
+    let v = problem.raw_f(&sol);
+    Individual::new(sol, SingleObjective::try_from(v).unwrap_or(so(f64::INFINITY)))
+}
+/// Runs `comp` on the prepared stack (`pops` listed top first); reports the status of every individual.
+fn exec<Q: HProblem>(problem: &Q, comp: Box<dyn Component<Q>>, pops: Vec<Vec<Q::Encoding>>, seed: u64, prep: impl FnOnce(&mut State<Q>)) -> String {
+    let mut state: State<Q> = State::new();
+    state.insert(Populations::<Q>::new());
+    state.insert(Random::new(seed));
+    for p in pops.into_iter().rev() {
+        state.populations_mut().push(p.into_iter().map(|s| evaluated(problem, s)).collect());
+    }
+    let res = match catch(|| -> Result<(), eyre::Report> {
+        comp.init(problem, &mut state)?;
+        prep(&mut state);
+        comp.execute(problem, &mut state)
+    }) {
+        None => "panic",
+        Some(Err(_)) => "err",
+        Some(Ok(())) => "ok",
+    };
+    let stack = catch(|| {
+        let pops = state.populations();
+        (0..pops.len()).map(|d| list(pops.peek(d).iter().map(|i| status(i, problem).to_string()))).collect::<Vec<_>>()
+    })
+    .unwrap_or_default();
+    format!("((res {}) {})", res, tagged("stack", stack))
+}
+
+/// `(comp NAME (prob …) (seed N) (params x…) (pops POP+) [(vel V+)])`
+fn run_comp(a: &[Sx]) -> String {
+    let name = a[0].atom().unwrap();
+    let find = |tag: &str| a.iter().find_map(|x| x.head().filter(|(t, _)| *t == tag).map(|(_, r)| r.to_vec()));
+    let prob = find("prob").unwrap();
+    let seed = find("seed").unwrap()[0].nat().unwrap();
+    let pr: Vec<f64> = find("params").unwrap_or_default().iter().map(|x| x.float().unwrap()).collect();
+    let pops = find("pops").unwrap();
+    let both = |v: f64| v != 0.0;
+    match prob[0].atom().unwrap() {
+        "real" => {
+            type Q = Sphere;
+            let problem = Sphere::new(prob[1].nat().unwrap() as usize, prob[2].float().unwrap(), prob[3].float().unwrap(), prob[4].float().unwrap());
+            let pops: Vec<Vec<Vec<f64>>> = pops.iter().map(|p| p.items().unwrap().iter().map(|s| s.items().unwrap().iter().map(|x| x.float().unwrap()).collect()).collect()).collect();
+            let top: Vec<Individual<Q>> = pops[0].iter().map(|s| evaluated(&problem, s.clone())).collect();
+            let vel: Vec<Vec<f64>> = find("vel").unwrap_or_default().iter().map(|s| s.items().unwrap().iter().map(|x| x.float().unwrap()).collect()).collect();
+            let comp: Box<dyn Component<Q>> = match name {
+                "Saturation" => boundary::Saturation::new(),
+                "Toroidal" => boundary::Toroidal::new(),
+                "Mirror" => boundary::Mirror::new(),
+                "CompleteOneTailedNormalCorrection" => boundary::CompleteOneTailedNormalCorrection::new(),
+                "NormalMutation" => mutation::NormalMutation::new(pr[0], pr[1]),
+                "UniformMutation" => mutation::UniformMutation::new(pr[0], pr[1]),
+                "PartialRandomSpread" => mutation::PartialRandomSpread::new(pr[0]),
+                "ParticleVelocitiesUpdate" => swarm::pso::ParticleVelocitiesUpdate::new(pr[0], pr[1], pr[2], pr[3]).unwrap(),
+                "BlackHoleParticlesUpdate" => swarm::bh::BlackHoleParticlesUpdate::new(),
+                "EventHorizon" => replacement::bh::EventHorizon::new(),
+                "DEMutation" => mutation::de::DEMutation::new(pr[0] as u32, pr[1]).unwrap(),
+                "DEBinomialCrossover" => recombination::de::DEBinomialCrossover::new(pr[0]),
+                "DEExponentialCrossover" => recombination::de::DEExponentialCrossover::new(pr[0]),
+                "ArithmeticCrossover" => recombination::ArithmeticCrossover::new(pr[0], both(pr[1])),
+                "UniformCrossover" => recombination::UniformCrossover::new::<Q, f64>(pr[0], both(pr[1])),
+                "NPointCrossover" => recombination::NPointCrossover::new::<Q, f64>(pr[0] as usize, pr[1], both(pr[2])),
+                other => panic!("unknown real component {other}"),
+            };
+            let is_pso = name == "ParticleVelocitiesUpdate";
+            let is_eh = name == "EventHorizon";
+            exec(&problem, comp, pops, seed, move |state| {
+                if is_pso {
+                    state.insert(ParticleVelocities::<Global>::new(vel));
+                    state.insert(BestParticle::<Q, Global>::new(top.first().cloned()));
+                    state.insert(BestParticles::<Q, Global>::new(top));
+                } else if is_eh {
+                    let bu = BestIndividualUpdate::new::<Q>();
+                    let p = Sphere::new(1, 0.0, 1.0, 0.0);
+                    bu.init(&p, state).unwrap();
+                    bu.execute(&p, state).unwrap();
+                }
+            })
+        }
+        "binary" => {
+            type Q = OneMax;
+            let problem = OneMax::new(prob[1].nat().unwrap() as usize);
+            let pops: Vec<Vec<Vec<bool>>> = pops.iter().map(|p| p.items().unwrap().iter().map(|s| s.items().unwrap().iter().map(|x| x.atom() == Some("t")).collect()).collect()).collect();
+            let comp: Box<dyn Component<Q>> = match name {
+                "BitFlipMutation" => mutation::BitFlipMutation::new(pr[0]),
+                "PartialRandomBitstring" => mutation::PartialRandomBitstring::new(pr[0], pr[1]),
+                "UniformCrossover" => recombination::UniformCrossover::new::<Q, bool>(pr[0], both(pr[1])),
+                "NPointCrossover" => recombination::NPointCrossover::new::<Q, bool>(pr[0] as usize, pr[1], both(pr[2])),
+                other => panic!("unknown binary component {other}"),
+            };
+            exec(&problem, comp, pops, seed, |_| {})
+        }
+        _ => {
+            type Q = Tsp;
+            let problem = Tsp::random(prob[1].nat().unwrap() as usize, prob[2].nat().unwrap(), 9.0);
+            let pops: Vec<Vec<Vec<usize>>> = pops.iter().map(|p| p.items().unwrap().iter().map(|s| s.items().unwrap().iter().map(|x| x.nat().unwrap() as usize).collect()).collect()).collect();
+            let comp: Box<dyn Component<Q>> = match name {
+                "SwapMutation" => mutation::SwapMutation::new(pr[0] as u32).unwrap(),
+                "ScrambleMutation" => mutation::ScrambleMutation::new(pr[0]),
+                "InversionMutation" => mutation::InversionMutation::new::<Q, usize>(),
+                "InsertionMutation" => mutation::common::InsertionMutation::new(),
+                "TranslocationMutation" => mutation::TranslocationMutation::new(),
+                "CycleCrossover" => recombination::CycleCrossover::new::<Q, usize>(pr[0], both(pr[1])),
+                other => panic!("unknown permutation component {other}"),
+            };
+            exec(&problem, comp, pops, seed, |_| {})
+        }
+    }
+}
+
+fn fl(v: &[f64]) -> String { list(v.iter().map(|x| fx(*x))) }
+
+/// Generates the component-level cases.
+fn gen_comp(r: &mut Sm, thorough: bool, emit: &mut dyn FnMut(String)) {
+    let reps = if thorough { 6 } else { 1 };
+    let coord = |r: &mut Sm, lo: f64, hi: f64, outside: bool| -> f64 {
+        if !outside { lo + r.unit() * (hi - lo) * 0.999 }
+        else if r.chance(1, 2) { lo - 0.1 - r.unit() * (hi - lo) } else { hi + 0.1 + r.unit() * (hi - lo) }
+    };
+    let sol = |r: &mut Sm, dim: usize, lo: f64, hi: f64, mask: u32| -> Vec<f64> { (0..dim).map(|k| coord(r, lo, hi, mask >> k & 1 == 1)).collect() };
+    let real_comps: [(&str, Vec<f64>, usize); 17] = [
+        ("Saturation", vec![], 1), ("Toroidal", vec![], 1), ("Mirror", vec![], 1), ("CompleteOneTailedNormalCorrection", vec![], 1),
+        ("NormalMutation", vec![0.1, 0.5], 1), ("NormalMutation", vec![0.1, 0.0], 1), ("UniformMutation", vec![0.5, 1.0], 1),
+        ("PartialRandomSpread", vec![0.0], 1), ("PartialRandomSpread", vec![0.5], 1),
+        ("BlackHoleParticlesUpdate", vec![], 1), ("EventHorizon", vec![], 1), ("DEMutation", vec![1.0, 0.5], 1),
+        ("DEBinomialCrossover", vec![0.5], 2), ("DEExponentialCrossover", vec![0.5], 2),
+        ("ArithmeticCrossover", vec![1.0, 1.0], 1), ("UniformCrossover", vec![0.5, 0.0], 1), ("NPointCrossover", vec![1.0, 1.0, 1.0], 1),
+    ];
+    for _ in 0..reps {
+        for (name, params, npops) in real_comps.iter() {
+            for dim in 1..=4usize {
+                if *name == "NPointCrossover" && dim < 2 { continue; }
+                for mask in 0..(1u32 << dim) {
+                    for pos in 0..3usize {
+                        let (lo, hi, shift) = *r.pick(&[(-1.0, 1.0, 0.0), (-2.0, 3.0, 1.0), (0.0, 1.0, 0.25)]);
+                        let mut pops = vec![];
+                        for _ in 0..*npops {
+                            let mut p: Vec<Vec<f64>> = (0..3).map(|_| { let m = if r.chance(1, 2) { 0 } else { r.below(1 << dim) as u32 }; sol(r, dim, lo, hi, m) }).collect();
+                            p[pos] = sol(r, dim, lo, hi, mask);
+                            pops.push(list(p.iter().map(|s| fl(s))));
+                        }
+                        emit(format!("(comp {name} (prob real {dim} {} {} {}) (seed {}) (params {}) {})", fx(lo), fx(hi), fx(shift), r.below(1000),
+                            params.iter().map(|v| fx(*v)).collect::<Vec<_>>().join(" "), tagged("pops", pops)));
+                    }
+                }
+            }
+        }
+        // PSO position update: prepared velocities (tiny / zero / ordinary / mixed), positions near 0 / ordinary / outside
+        for dim in 1..=4usize {
+            for vcat in 0..4u64 {
+                for pcat in 0..3u64 {
+                    for params in [[0.5, 0.0, 0.0, 1.0], [0.7, 1.0, 1.0, 1.0], [1.0, 0.0, 0.0, 0.5]] {
+                        for pos in 0..3usize {
+                            let mk_v = |r: &mut Sm, cat: u64| -> Vec<f64> {
+                                (0..dim).map(|k| {
+                                    let sign = if r.chance(1, 2) { 1.0 } else { -1.0 };
+                                    match cat {
+                                        0 => sign * (1e-17 + r.unit() * 1e-16),
+                                        1 => 0.0,
+                                        2 => sign * (0.01 + r.unit() * 0.3),
+                                        _ => if k + 1 == dim { sign * 0.1 } else { sign * 5e-17 },
+                                    }
+                                }).collect()
+                            };
+                            let mk_x = |r: &mut Sm, cat: u64| -> Vec<f64> {
+                                (0..dim).map(|_| match cat {
+                                    0 => (r.unit() - 0.5) * 2e-12,
+                                    1 => (r.unit() - 0.5) * 1.8,
+                                    _ => if r.chance(1, 2) { 1.5 + r.unit() } else { (r.unit() - 0.5) * 1e-9 },
+                                }).collect()
+                            };
+                            let mut xs: Vec<Vec<f64>> = (0..3).map(|_| { let c = r.below(3); mk_x(r, c) }).collect();
+                            let mut vs: Vec<Vec<f64>> = (0..3).map(|_| { let c = r.below(4); mk_v(r, c) }).collect();
+                            xs[pos] = mk_x(r, pcat);
+                            vs[pos] = mk_v(r, vcat);
+                            emit(format!("(comp ParticleVelocitiesUpdate (prob real {dim} {} {} {}) (seed {}) (params {}) (pops {}) {})", fx(-1.0), fx(1.0), fx(0.0), r.below(1000),
+                                params.iter().map(|v| fx(*v)).collect::<Vec<_>>().join(" "), list(xs.iter().map(|s| fl(s))), tagged("vel", vs.iter().map(|s| fl(s)))));
+                        }
+                    }
+                }
+            }
+        }
+        // bit strings and permutations
+        for dim in [1usize, 3, 6] {
+            for (name, params) in [("BitFlipMutation", vec![0.0]), ("BitFlipMutation", vec![0.5]), ("BitFlipMutation", vec![1.0]),
+                                   ("PartialRandomBitstring", vec![0.5, 0.5]), ("UniformCrossover", vec![0.5, 1.0]), ("NPointCrossover", vec![1.0, 1.0, 0.0])] {
+                if name == "NPointCrossover" && dim < 2 { continue; }
+                let p: Vec<String> = (0..4).map(|_| list((0..dim).map(|_| b(r.chance(1, 2))))).collect();
+                emit(format!("(comp {name} (prob binary {dim}) (seed {}) (params {}) (pops {}))", r.below(1000), params.iter().map(|v| fx(*v)).collect::<Vec<_>>().join(" "), list(p)));
+            }
+        }
+        for n in [4usize, 6, 8] {
+            for (name, params) in [("SwapMutation", vec![2.0]), ("SwapMutation", vec![3.0]), ("ScrambleMutation", vec![0.0]), ("ScrambleMutation", vec![1.0]),
+                                   ("InversionMutation", vec![]), ("InsertionMutation", vec![]), ("TranslocationMutation", vec![]), ("CycleCrossover", vec![1.0, 1.0])] {
+                let p: Vec<String> = (0..4).map(|_| { let mut v: Vec<u64> = (0..n as u64).collect(); for i in (1..n).rev() { v.swap(i, r.below(i as u64 + 1) as usize); } nats(v) }).collect();
+                emit(format!("(comp {name} (prob perm {n} {}) (seed {}) (params {}) (pops {}))", 11 + n, r.below(1000), params.iter().map(|v| fx(*v)).collect::<Vec<_>>().join(" "), list(p)));
+            }
+        }
     }
 }
 
@@ -258,6 +496,7 @@ fn run_case(input: &Sx) -> (String, String) {
     match tag {
         "api" => ("Individual-api".into(), run_api(a)),
         "run" => (a[0].atom().unwrap().to_string(), run_run(a)),
+        "comp" => (a[0].atom().unwrap().to_string(), run_comp(a)),
         other => panic!("unknown case {other}"),
     }
 }
@@ -295,7 +534,13 @@ fn main() {
             let s = r.below(np);
             let val = |r: &mut Sm, s: u64| if honest || r.chance(1, 2) { fx(ft[s as usize]) } else { fx(*r.pick(&[0.0, 1.0, 2.5, f64::INFINITY, ft[0]])) };
             let idx = |r: &mut Sm| if size == 0 || r.chance(1, 30) { size + r.below(2) } else { r.below(size) };
-            let op = match r.below(32) {
+            let src = |r: &mut Sm, k: u64| -> Vec<String> {
+                (0..k).map(|_| { let s = r.below(np); if r.chance(1, 2) { format!("({s})") } else { format!("({s} {})", val(r, s)) } }).collect()
+            };
+            let op = match r.below(38) {
+                32..=34 => format!("(clonefrom {} {})", idx(&mut r), idx(&mut r)),
+                35..=36 => { let k = if r.chance(2, 3) { size } else { r.below(4) }; let v = src(&mut r, k); size = k; tagged("vclonefrom", v) }
+                37 => { let k = if r.chance(5, 6) { size } else { size + 1 }; tagged("sclonefrom", src(&mut r, k)) }
                 0..=2 => { size += 1; format!("(new {s} {})", val(&mut r, s)) }
                 3..=5 => { size += 1; format!("(newu {s})") }
                 6..=9 => format!("(eval {})", idx(&mut r)),
@@ -323,6 +568,8 @@ fn main() {
         }
         emit(format!("(api (prob {kind} {inst} {npool}) {})", tagged("ops", ops)));
     }
+    // (c) component level: solution-modifying components on prepared, evaluated populations
+    gen_comp(&mut r, a.thorough, &mut emit);
     // (b) run level
     let seeds: u64 = if a.thorough { 8 } else { 2 };
     let iters = if a.thorough { 10 } else { 6 };
